@@ -64,6 +64,15 @@ func vkv(m map[string]string) string {
 	return strings.Join(l, ",")
 }
 
+func vkb(m map[string]bool) string {
+	var l []string
+	for k, v := range m {
+		l = append(l, vhex(k)+":"+vb(v))
+	}
+	sort.Strings(l)
+	return strings.Join(l, ",")
+}
+
 // VerifDump renders the complete replicated state canonically.
 func VerifDump(i *IRCServer) string {
 	i.sessionsMu.RLock()
@@ -76,6 +85,7 @@ func VerifDump(i *IRCServer) string {
 	for _, id := range i.serverSessions {
 		ss = append(ss, fmt.Sprintf("%d", id))
 	}
+	sort.Strings(ss) // a slice in the code, but only ever used to build recipient sets
 	parts = append(parts, "SS="+strings.Join(ss, ","))
 	var ni []string
 	for k, s := range i.nicks {
@@ -143,9 +153,9 @@ func VerifDump(i *IRCServer) string {
 	for _, s := range cfg.IRC.Services {
 		svc = append(svc, vhex(s.Password))
 	}
-	parts = append(parts, fmt.Sprintf("CF rev=%d ops=%s svc=%s se=%d pc=%d tb=%s cu=%s cs=%s cl=%s ms=%d mc=%d bn=%s", cfg.Revision, strings.Join(ops, ";"), strings.Join(svc, ";"),
+	parts = append(parts, fmt.Sprintf("CF rev=%d ops=%s svc=%s se=%d pc=%d tb=%s cu=%s cs=%s cl=%s ms=%d mc=%d bn=%s wo=%s", cfg.Revision, strings.Join(ops, ";"), strings.Join(svc, ";"),
 		int64(cfg.SessionExpiration), int64(cfg.PostMessageCooloff), vkv(cfg.TrustedBridges), vhex(cfg.CaptchaURL), vhex(cfg.CaptchaHMACSecret.String()), vb(cfg.CaptchaRequiredForLogin),
-		cfg.MaxSessions, cfg.MaxChannels, vkv(cfg.Banned)))
+		cfg.MaxSessions, cfg.MaxChannels, vkv(cfg.Banned), vkb(cfg.WhitelistedOrigins)))
 	return strings.Join(parts, " | ")
 }
 
